@@ -176,4 +176,110 @@ theorem startFormatRead_text (D : Desc) (s : St) (hb : D.cmdCap ≤ s.buf.length
   have := t2.1
   simpa [TxtC, List.append_assoc] using this
 
+theorem printAll_fits {D : Desc} : ∀ (xs : List (List Byte)) (s : St) (t : List Byte), D.cmdCap ≤ s.buf.length → PreC D s t →
+    t.length + xs.flatten.length < D.cmdCap → (printAll D s .cmd xs).2 = true := by
+  intro xs
+  induction xs with
+  | nil => intro s t _ _ _; rfl
+  | cons x r ih =>
+    intro s t hb hp hfit
+    simp only [List.flatten_cons, List.length_append] at hfit
+    have ok1 : (printN D s .cmd x).2 = true := by
+      rw [printN_ok_iff D s x (by rw [hp.1]; exact hp.2.1), hp.1]; simp; omega
+    have t1 := printN_txt x hb hp ok1
+    simp only [printAll]
+    rcases hr : printN D s .cmd x with ⟨s1, o1⟩
+    rw [hr] at ok1 t1
+    simp only at ok1 t1
+    subst ok1
+    simp only [if_true]
+    exact ih s1 (t ++ x) t1.2 t1.1.pre (by simp only [List.length_append]; omega)
+
+theorem printAll_keep (D : Desc) : ∀ (xs : List (List Byte)) (s : St),
+    (printAll D s .cmd xs).1.cmd = s.cmd ∧ (printAll D s .cmd xs).1.crFlag = s.crFlag ∧ (printAll D s .cmd xs).1.state = s.state := by
+  intro xs
+  induction xs with
+  | nil => intro s; exact ⟨rfl, rfl, rfl⟩
+  | cons x r ih =>
+    intro s
+    simp only [printAll]
+    have k := printN_frame D s .cmd x
+    simp only [SameCtlNP, SameC', SameU', SameH, SameR] at k
+    rcases hr : printN D s .cmd x with ⟨s1, o1⟩
+    rw [hr] at k
+    cases o1
+    · exact ⟨k.1.1.2.2.2.2.1, k.1.1.2.2.2.2.2.2.2.2.1, k.1.1.2.2.2.2.2.2.2.1⟩
+    · simp only [if_true]
+      have := ih s1
+      exact ⟨this.1.trans k.1.1.2.2.2.2.1, this.2.1.trans k.1.1.2.2.2.2.2.2.2.2.1, this.2.2.trans k.1.1.2.2.2.2.2.2.2.1⟩
+
+theorem printResponseTest_eq (D : Desc) (s : St) (hc : s.cmd.isSome = true) :
+    printResponseTest D s .cmd =
+      (let r := match (D.cmdD s.cmd).desc with
+         | some d => printAll D s .cmd [nlStr s, d]
+         | none => (s, true)
+       if !r.2 then (r.1, false)
+       else if (D.cmdD s.cmd).hasTest then (setStateTL r.1 .cmd, true)
+       else (startFlush r.1 .cmd .ok, true)) := by
+  unfold printResponseTest
+  simp only [St.cmdOf, St.chkUb, hc, if_true]
+  cases (D.cmdD s.cmd).desc <;> rfl
+
+/-- the text of the TEST response a test handler is first called with, for a command without variables: the name, `=`
+and — when the command has a description — a line break and the description -/
+def testText (c : CmdD) (nl : List Byte) : List Byte :=
+  c.name ++ [61] ++ (match c.desc with | some d => nl ++ d | none => [])
+
+theorem startFormatTest_text (D : Desc) (s : St) (hb : D.cmdCap ≤ s.buf.length) (hc : s.cmd.isSome = true)
+    (hv : ((D.cmdD s.cmd).vars.isSome && decide ((D.cmdD s.cmd).varNum > 0)) = false) (ht : (D.cmdD s.cmd).hasTest = true)
+    (hfit : (testText (D.cmdD s.cmd) (nlStr s)).length < D.cmdCap) :
+    (startFormatTest D s .cmd).state = .testLoop ∧ TxtC D (startFormatTest D s .cmd) (testText (D.cmdD s.cmd) (nlStr s)) ∧
+    (startFormatTest D s .cmd).cmd = s.cmd ∧ D.cmdCap ≤ (startFormatTest D s .cmd).buf.length := by
+  unfold startFormatTest
+  simp only [St.setPos, St.cmdOf, hc, St.chkUb, if_true]
+  generalize hs0 : ({ s with position := 0 } : St) = s0
+  have hb0 : D.cmdCap ≤ s0.buf.length := by rw [← hs0]; exact hb
+  have hc0 : s0.cmd = s.cmd := by rw [← hs0]
+  have hcr0 : s0.crFlag = s.crFlag := by rw [← hs0]
+  have hp0 : PreC D s0 [] := ⟨by rw [← hs0]; rfl, Nat.zero_le _, fun i hi => by simp at hi⟩
+  generalize hcd : D.cmdD s.cmd = c at *
+  have hlen : (c.name ++ [61]).length ≤ (testText c (nlStr s)).length := by
+    unfold testText; simp only [List.length_append]; omega
+  have ok1 : (printAll D s0 .cmd [c.name, [61]]).2 = true :=
+    printAll_fits _ s0 [] hb0 hp0 (by simp at hlen ⊢; omega)
+  have t1 := printAll_txt [c.name, [61]] s0 [] hb0 hp0 ok1 (by simp)
+  have k1 := printAll_keep D [c.name, [61]] s0
+  rcases hr1 : printAll D s0 .cmd [c.name, [61]] with ⟨s1, o1⟩
+  rw [hr1] at ok1 t1 k1
+  simp only at ok1 t1 k1
+  subst ok1
+  simp only [Bool.not_true, Bool.false_eq_true, if_false, hv]
+  have hc1 : s1.cmd.isSome = true := by rw [k1.1, hc0]; exact hc
+  have hcd1 : D.cmdD s1.cmd = c := by rw [k1.1, hc0]; exact hcd
+  rw [printResponseTest_eq D s1 hc1]
+  simp only [hcd1]
+  cases hd : c.desc with
+  | none =>
+    simp only [Bool.not_true, Bool.false_eq_true, if_false, ht, if_true, setStateTL]
+    refine ⟨trivial, ?_, by rw [k1.1, hc0], t1.2⟩
+    have := t1.1
+    simpa [TxtC, testText, hd] using this
+  | some d =>
+    have hnl : nlStr s1 = nlStr s := by simp only [nlStr, k1.2.1, hcr0]
+    have hfit2 : (testText c (nlStr s)).length = (c.name ++ [61]).length + ([nlStr s1, d] : List (List Byte)).flatten.length := by
+      simp [testText, hd, hnl]; omega
+    have ok2 : (printAll D s1 .cmd [nlStr s1, d]).2 = true :=
+      printAll_fits _ s1 _ t1.2 (by simpa using t1.1.pre) (by rw [← hfit2]; exact hfit)
+    have t2 := printAll_txt [nlStr s1, d] s1 _ t1.2 (by simpa using t1.1.pre) ok2 (by simp)
+    have k2 := printAll_keep D [nlStr s1, d] s1
+    rcases hr2 : printAll D s1 .cmd [nlStr s1, d] with ⟨s2, o2⟩
+    rw [hr2] at ok2 t2 k2
+    simp only at ok2 t2 k2
+    subst ok2
+    simp only [hr2, Bool.not_true, Bool.false_eq_true, if_false, ht, if_true, setStateTL]
+    refine ⟨trivial, ?_, by rw [k2.1, k1.1, hc0], t2.2⟩
+    have := t2.1
+    simpa [TxtC, testText, hd, hnl, List.append_assoc] using this
+
+
 end Cat
